@@ -181,6 +181,14 @@ MALFORMED = [
     ("out-of-order-decision-first", lambda d: (b"banana-decision-version: 3\r\ninitial-vocab-table-index: 1 abcd\r\n\r\n" + d) if b"my-tub-id" in d else d),
     ("empty-block", lambda d: b"\r\n\r\n" if b"my-tub-id" in d else d),
     ("non-ascii", lambda d: d.replace(b"my-tub-id: ", b"my-tub-id: \xff\xfe") if b"my-tub-id" in d else d),
+    # oversized VALUES inside a block that stays under the 4096-byte header limit: the error text that quotes them
+    # exceeds the 1000-byte limit of an ERROR token and has to be truncated on every reporting path
+    ("decision-hash-1500", lambda d: re.sub(rb"(initial-vocab-table-index: \d+ )[0-9a-f]{4}", lambda m: m.group(1) + b"f" * 1500, d)),
+    ("decision-hash-3000", lambda d: re.sub(rb"(initial-vocab-table-index: \d+ )[0-9a-f]{4}", lambda m: m.group(1) + b"e" * 3000, d)),
+    ("decision-version-long", lambda d: re.sub(rb"banana-decision-version: \d+", b"banana-decision-version: " + b"9" * 2500, d)),
+    ("range-long", lambda d: re.sub(rb"banana-negotiation-range: \d+ \d+", b"banana-negotiation-range: " + b"7" * 1800 + b" x", d)),
+    ("tubid-long", lambda d: re.sub(rb"my-tub-id: \S+", b"my-tub-id: " + b"q" * 2200, d)),
+    ("http-500-long", lambda d: (b"HTTP/1.1 500 Internal Server Error: " + b"z" * 2000 + b"\r\n\r\n") if d.startswith(b"HTTP/1.1 101") else d),
 ]
 
 
@@ -217,6 +225,12 @@ def malformed(ctx):
                     if pa != pb or len(pa) > 1:
                         ctx.fail("oracle/malformed-disagree", "after malformed input %r the ends disagree: %r vs %r" % (cfg, pa, pb),
                                  replay=dict(cfg=cfg, A=pa, B=pb))
+                    # (binary-garbage carries no block terminator and stays under the header limit: the receiver rightly keeps
+                    # waiting, and the attempt ends by the negotiation timeout)
+                    if not pa and not trial_then_retry.prompt[0] and name not in ("binary-garbage",):
+                        ctx.fail("oracle/malformed-not-reported", "after malformed input %r the attempt was abandoned but the negotiation "
+                                 "failure was not reported: getReference stayed pending until the connection timeout and then got %r"
+                                 % (cfg, res), replay=dict(cfg=cfg, res=repr(res)))
                     if len(res) != 1:
                         ctx.fail("oracle/malformed-hang", "getReference fired %d times after malformed input %r" % (len(res), cfg),
                                  replay=dict(cfg=cfg))
@@ -288,11 +302,14 @@ def trial_then_retry(r, a_high, mangle):
     B = make_tub(net, "b", pb_, mkneg(r))
     furl = B.registerReference(T())
 
+    prompt = []
+
     def attempt():
         res = []
         A.getReference(furl).addCallback(lambda rr: rr.callRemote("hi")).addBoth(res.append)
         E.turn()
         net.run()
+        prompt.append(bool(res))          # settled without waiting for the 120 s connection timeout?
         for i in range(3):
             if res:
                 break
@@ -314,6 +331,7 @@ def trial_then_retry(r, a_high, mangle):
     for t in (A, B):
         t.stopService()
     E.turn()
+    trial_then_retry.prompt = prompt
     return first + second
 
 
